@@ -4,10 +4,10 @@ META = dict(
     engine="seq", level="model_checking",
     technique="explicit-state, level-synchronous BFS over Share/Deck/Store-time operation histories, replay-from-history on fresh real objects, "
               "canonical-state dedupe (time-translation invariant), reference model compared after every step",
-    text="All interleavings, to depth 4 (quick) / 7 (thorough), of value assignment, update / change / create in keyword, pair-list and dict form, item assignment and "
+    text="All interleavings, to depth 4 (quick) / 6 (thorough) with at most 3 queued deck elements, of value assignment, update / change / create in keyword, pair-list and dict form, item assignment and "
          "deletion, pop / popitem / clear / setdefault / insert, every way of adding a field under an invalid name (leading underscore, leading digit, "
          "empty, trailing newline, name of an existing Data attribute), stampNow, store time advance, detaching and re-attaching the store, and deck "
-         "push / pull / gulp(None) / gulp(x) / spew.  After every transition the real share (ordered fields incl. the raw attribute dict, stamp, deck, "
+         "push / pull / gulp(None) / gulp(x) / spew with truthy and falsy elements (0, 0.0, False, '', (), [] -- compared by type and value).  After every transition the real share (ordered fields incl. the raw attribute dict, stamp, deck, "
          "store link, store time) must equal the model and the call's result or exception must match; on every new state ~40 read-only views (keys, "
          "values, items, iteration, len, in, [], get, fetch, has_key, value, sift, copy, deck list) are compared.  Dedupe on (fields, stamp age, deck, attached).",
     note="Whether an invalid field name is refused by raising or by silently doing nothing is not compared (only that nothing changes); pushing None "
@@ -59,7 +59,22 @@ def matches(got, exp, ns):
         return True
     if exp[1] is SELF:
         return got[1] is ns["sh"]
-    return freeze(got[1]) == freeze(exp[1])
+    return strict_eq(got[1], exp[1])
+
+
+def strict_eq(a, b):
+    """equality that tells 0, 0.0 and False apart (sequence kind list/tuple is not compared at the top levels the
+    model builds itself; deck elements go through typed())"""
+    if isinstance(a, (list, tuple)) and isinstance(b, (list, tuple)):
+        return len(a) == len(b) and all(strict_eq(x, y) for x, y in zip(a, b))
+    if isinstance(a, dict) and isinstance(b, dict):
+        return strict_eq(list(a.items()), list(b.items()))
+    return type(a) is type(b) and a == b
+
+
+def typed(x):
+    """deck element as (type name, repr): 0 / 0.0 / False / '' / () / [] are six different elements"""
+    return (type(x).__name__, repr(x))
 
 
 def show(r):
@@ -175,6 +190,10 @@ def build_ops():
     for text, x in (("sh.deck.push(1)", 1), ("sh.deck.push(2)", 2), ("sh.push(1)", 1), ("sh.deck.gulp(1)", 1), ("sh.deck.gulp(2)", 2)):
         op(text, text.split("(")[0].split(".")[-1], (lambda x: lambda st: (st[:2] + (st[2] + (x,),) + st[3:], OK))(x))
     op("sh.deck.gulp(None)", "gulp", lambda st: (st, OK))
+    # falsy but legal elements: only None may be dropped by gulp, and they must come back out unchanged in type
+    for text, x in (("sh.deck.gulp(0)", 0), ("sh.deck.gulp(0.0)", 0.0), ("sh.deck.gulp(False)", False), ("sh.deck.gulp('')", ""),
+                    ("sh.deck.gulp(())", ()), ("sh.deck.gulp([])", []), ("sh.deck.push(0)", 0), ("sh.push('')", "")):
+        op(text, text.split("(")[0].split(".")[-1], (lambda x: lambda st: (st[:2] + (st[2] + (x,),) + st[3:], OK))(x))
     for text in ("sh.deck.pull()", "sh.pull()"):
         op(text, "pull", lambda st: (st[:2] + (st[2][1:],) + st[3:], ("ok", st[2][0])) if st[2] else (st, ("exc", "IndexError")))
     op("sh.deck.spew()", "spew", lambda st: (st[:2] + (st[2][1:],) + st[3:], ("ok", st[2][0])) if st[2] else (st, ("ok", None)))
@@ -194,6 +213,7 @@ def build_ops():
 
 
 OPS = build_ops()
+DECKCAP = 3       # 8 element values ^ deck length is what makes the state space grow; FIFO order needs no more than 3
 
 
 def observations(st):
@@ -229,12 +249,12 @@ def dump(ns):
     d = sh.data.__dict__
     return (tuple((k, dict.__getitem__(d, k)) for k in d._keys),                       # ordered fields
             tuple(sorted((repr(k), repr(v)) for k, v in dict.items(d))),               # raw attribute dict
-            sh.stamp, tuple(sh.deck), sh.store is s, s.stamp)
+            sh.stamp, tuple(typed(x) for x in sh.deck), sh.store is s, s.stamp)
 
 
 def expdump(st):
     f, stamp, deck, att, now = st
-    return (tuple(f), tuple(sorted((repr(k), repr(v)) for k, v in f)), stamp, tuple(deck), att, now)
+    return (tuple(f), tuple(sorted((repr(k), repr(v)) for k, v in f)), stamp, tuple(typed(x) for x in deck), att, now)
 
 
 def canon(ns):
@@ -289,6 +309,8 @@ def expand(arg):
     local = set()
     for hist, st in states:
         for i, (text, name, model) in enumerate(OPS):
+            if len(st[2]) >= DECKCAP and name in ("push", "gulp") and text != "sh.deck.gulp(None)":
+                continue                       # stated bound: the deck holds at most DECKCAP elements
             ns = replay(storing, hist)
             got = run_text(text, ns)
             st2, exp = model(st)
@@ -391,7 +413,7 @@ FUNCS.update(expand=expand, observe=observe_shard)
 
 def run():
     ck = core.Check("C19", "model_checking", META["technique"])
-    depth = 4 if core.TIER == "quick" else 7
+    depth = 4 if core.TIER == "quick" else 6
     core.use_repo()
     from ioflo.base import storing
     ns = fresh(storing)
@@ -429,12 +451,13 @@ def run():
         "an operation given an invalid field name must leave the share unchanged; raising versus silently ignoring is not compared",
         "invalid names: leading underscore, leading digit, empty, trailing newline, and the name of an attribute every Data object already has (_show)",
         "update/change/create return the share (chaining is relied upon by Store itself); del/pop/popitem of a missing field raise KeyError, pull on an empty deck IndexError",
+        "the deck holds at most %d elements (adding operations are not applied beyond that)" % DECKCAP,
         "None is never pushed onto the deck (spew's 'None only when empty' presumes gulp's filter)",
         "dedupe uses the stamp's age (store stamp minus share stamp): Share code only copies store.stamp, so behaviour is time-translation invariant",
     ]
     return ck.finish(
         rule="all histories of length <= %d over %d operations (value=, update/change/create x 3 argument forms, []=, del, pop, popitem, clear, setdefault, "
-             "insert, 5 invalid names x 7 adders, stampNow, advanceStamp, changeStamp, detach/attach, deck push/pull/gulp/spew), deduped on "
+             "insert, 5 invalid names x 7 adders, stampNow, advanceStamp, changeStamp, detach/attach, deck push/pull/gulp/spew with truthy and falsy non-None elements), deduped on "
              "(ordered fields, raw dict, stamp age, deck, attached); non-trivial = distinct reachable state" % (depth, len(OPS)),
         exhaustive=True)
 
